@@ -123,6 +123,32 @@ def consumer_facts(prog, repo, which='pipe'):
     return out
 
 
+def drop_facts(prog, which='pipe'):
+    """What dropping the iterator does before its fields (the Receiver) are dropped: nothing when the type has no Drop
+    impl (the model's `drop the receiver` action); a Drop impl that joins the background thread(s) makes the consumer
+    wait for them first; any other Drop impl is outside the model."""
+    ty = 'Pipe<O>' if which == 'pipe' else 'Buffered<T>'
+    fs = [f for n, f in prog.functions.items() if n.endswith('>::drop') and ('(_1: &mut %s)' % ty) in (f.header or '')]
+    if not fs:
+        return {'drop_impl': False, 'joins': False}
+    if len(fs) > 1:
+        raise Unsupported('MIRBMC: several Drop impls for ' + ty)
+    fs[0].parse()
+    from resolve import parse_callee
+    keys = set()
+    for b in fs[0].blocks.values():
+        if not b.cleanup and b.term.kind == 'call' and b.term.a['func']:
+            keys.add(parse_callee(b.term.a['func']).key())
+    harmless = {'Option::take', 'Option::is_some', 'Option::is_none', 'mem::drop', 'mem::take', 'mem::replace', 'Result::ok',
+                'Result::is_ok', 'Result::is_err', 'Option::unwrap', 'Option::expect', 'Result::unwrap', 'Result::expect',
+                'Vec::drain', 'IntoIterator::into_iter', 'Iterator::next', 'Deref::deref', 'DerefMut::deref_mut', 'Vec::pop'}
+    joins = bool(keys & {'JoinHandle::join'})
+    other = keys - harmless - {'JoinHandle::join'}
+    if other:
+        raise Unsupported('MIRBMC: Drop impl of %s calls %s (outside the protocol model)' % (ty, sorted(other)))
+    return {'drop_impl': True, 'joins': joins}
+
+
 def spawn_facts(prog, repo):
     """number of worker threads spawned by Pipe::new as a function of num_threads: the spawn loop iterates over the range
     start..num_threads (start read from the MIR); anything else is outside the model"""
